@@ -25,6 +25,15 @@
 	size_t  vp_in_moff = vp_in.m_body.ch_cap ? (size_t) __CPROVER_POINTER_OFFSET(vp_in.m_body.ch_ptr) : 0; \
 	VP_MSNAP_END
 
+/* nni_msg_pull_up is decided with --slice-formula, which drops every assignment no proof
+ * obligation depends on -- the snapshot would not be in the trace.  The sum below carries
+ * (always true) signed-overflow checks that mention the snapshot values, which keeps
+ * them in the cone of influence; it has no other purpose. */
+#define VP_SNAP_MSG_KEEP(m)                                                        \
+	VP_SNAP_MSG(m)                                                                 \
+	int vp_keep = (int) (vp_in_moff & 1) + (int) (vp_in.m_body.ch_cap & 1) + (int) (vp_in.m_body.ch_len & 1) + \
+	    (int) (vp_in.m_header_len & 1) + (int) (vp_in.m_refcnt.v & 1);
+
 /* nni_msg_free: m may be NULL */
 #define VP_SNAP_MSG_OPT(m)                                                         \
 	VP_MSNAP_BEGIN                                                                 \
